@@ -37,9 +37,7 @@ impl AddSpecImpl<u32> for BigUint {
 }
 impl Add<u32> for BigUint {
     type Output = BigUint;
-    //@ assume BigUint:Add<u32> : scalar leaf `self += other; self` over AddAssign<u32> (src/biguint/addition.rs), unit pending
-    #[verifier::external_body]
-    fn add(self, other: u32) -> (r: BigUint) ensures r.wf(), r.v() == self.v() + other as nat { unimplemented!() }
+//@ stub u_scalar/add_u32
 }
 impl RemSpecImpl<&BigUint> for &BigUint {
     open spec fn obeys_rem_spec() -> bool { false }
@@ -48,11 +46,7 @@ impl RemSpecImpl<&BigUint> for &BigUint {
 }
 impl Rem<&BigUint> for &BigUint {
     type Output = BigUint;
-    //@ assume BigUint:Rem<&BigUint>for&BigUint : leaf with a to_u32 fast path (src/biguint/division.rs), unit pending
-    #[verifier::external_body]
-    fn rem(self, other: &BigUint) -> (r: BigUint)
-        ensures mp() ==> other.v() != 0, r.wf(), exists|q: nat| udiv_ok(self.v(), other.v(), q, r.v())
-    { unimplemented!() }
+//@ stub u_divscalar/rem_ref_ref
 }
 impl DivSpecImpl<&BigUint> for &BigUint {
     open spec fn obeys_div_spec() -> bool { false }
